@@ -229,6 +229,26 @@ def check(ctx):
         ctx.ob("NA-flow", fn, f"{name}: missing positions from {[norm(c) for c in calls]}", fn.node, ok,
                "missing positions come from is_na" if ok else f"{name} determines missing positions without is_na (or by its own test)",
                clause="is_na flags exactly those positions")
+    eq = repo.fn(f"{VEC}.equal")
+    from ..pattern import pmatch as _pm
+    S0, O0 = eq.params[0], eq.params[1]
+    masks = {}
+    for n in body_nodes(eq.node):
+        if isinstance(n, ast.Assign) and isinstance(n.targets[0], ast.Name):
+            if _pm(f"{S0}.is_na()", n.value) is not None:
+                masks["self"] = n.targets[0].id
+            if _pm(f"{O0}.is_na()", n.value) is not None:
+                masks["other"] = n.targets[0].id
+    ok = False
+    if len(masks) == 2:
+        a_, b_ = masks["self"], masks["other"]
+        txt = " ".join(norm(r.value) for r in body_nodes(eq.node) if isinstance(r, ast.Return) and r.value is not None)
+        ok = (f"np.all({a_} == {b_})" in txt or f"np.all({b_} == {a_})" in txt or f"np.array_equal({a_}, {b_})" in txt) and \
+            (f"{S0}[~{a_}] == {O0}[~{b_}]" in txt or f"{O0}[~{b_}] == {S0}[~{a_}]" in txt)
+    ctx.ob("NA-flow", eq, "equal: same missing positions AND equal non-missing elements", eq.node, ok,
+           "both vectors' NA masks are compared and the non-missing elements of each are compared with each other" if ok else
+           "equal does not compare the two NA masks (or indexes both vectors with one mask): a missing value on one side matches "
+           "any value on the other and equal is no longer symmetric", clause="equal is an equivalence relation that treats missing values as equal to each other")
     tl = repo.fn(f"{VEC}.tolist")
     rets = [n for n in body_nodes(tl.node) if isinstance(n, ast.Return)]
     ok = len(rets) == 1 and norm(rets[0].value) == f"np.where({tl.params[0]}.is_na(), None, {tl.params[0]}).tolist()"
